@@ -8,11 +8,17 @@
   successor — at every point of the run, also if it ends by expiry, panic or fuel);
   `inner_search_reports_nothing`; `expired_is_sticky_step` (once the clock said "out of time" it says
   so at every later consultation).
+  `aborted_value_never_reported`: the abort sentinel ±POS_INF — the value every call returns once
+  the clock has said "out of time" — never appears on an info line, for any expiry index, depth or
+  ordering (corollary of the value-range invariant, Proofs/Range, RangeFine, RootRange);
+  `sentinel_only_after_expiry`: an alpha-beta call returns the sentinel only in a state whose clock
+  has expired, and otherwise a value in [-MATE, MATE].
   Not proved (decided by the every-k sweep with order-log replay): `reports_prefix`
-  (a larger allowance only extends the reported improvements), `aborted_never_accepted`,
-  and the absence of index panics beyond ply 99 (L1 in DESIGN.md).
+  (a larger allowance only extends the reported improvements) and the absence of index panics
+  beyond ply 99 (L1 in DESIGN.md).
 -/
 import Walleye.Proofs.Reports
+import Walleye.Proofs.RootRange
 namespace Walleye
 open DrawTable
 
@@ -57,5 +63,26 @@ theorem aborted_call_returns_sentinel (fuel : Nat) (p : P) (d ply : Nat) (a b : 
   unfold alphaBeta
   rw [bind_of_ok ht]
   rfl
+
+/-- an alpha-beta call (any depth) returns a value in [-MATE, MATE], or the sentinel and then the
+    clock has expired -/
+theorem sentinel_only_after_expiry (E : Nat) (hE : ∀ p, -(E : Int) ≤ g.eval p ∧ g.eval p ≤ E)
+    (hEm : (E : Int) ≤ Gen.mateScore) (fuel : Nat) (p : P) (d : Nat) (a b : Int) (s s' : SS P O) (v : Int)
+    (hsz : s.cur.size = arrSize) (ha : a ≤ Gen.mateScore) (hb : -Gen.mateScore ≤ b)
+    (h : alphaBeta g ord fuel p d 1 a b true s = .ok v s') :
+    (-Gen.mateScore ≤ v ∧ v ≤ Gen.mateScore) ∨ ((v = Gen.posInf ∨ v = -Gen.posInf) ∧ s'.expired = true) :=
+  (alphaBeta_range g ord E hE hEm fuel p d 1 a b true ha hb (fun _ => by decide) (by decide)).run s v s' hsz h
+
+/-- the abort sentinel is never reported, whatever the expiry index -/
+theorem aborted_value_never_reported (E : Nat) (hE : ∀ p, -(E : Int) ≤ g.eval p ∧ g.eval p ≤ E)
+    (hEp : (E : Int) + arrSize + Gen.nullPlyJump + 1 ≤ Gen.mateScore) (fuel : Nat) (root : P) (s : SS P O)
+    (hs : s.reports = #[]) :
+    ∀ i, Report.info i ∈ (outState (getBestMove g ord fuel root s)).reports.toList →
+      i.eval ≠ Gen.posInf ∧ i.eval ≠ -Gen.posInf := by
+  intro i hi
+  have := getBestMove_scores_in_range g ord E hE hEp fuel root s (by intro i hi; rw [hs] at hi; cases hi) i hi
+  unfold ScoreOK at this
+  simp only [Gen.mateScore, Gen.posInf] at *
+  omega
 
 end Walleye
